@@ -3,7 +3,10 @@ CRLF = b'\r\n'
 METHODS = [b'GET', b'PUT', b'PATCH']
 VERSIONS = [b'HTTP/1.0', b'HTTP/1.1']
 URIS = [b'/', b'/a', b'/a/b?c=d', b'http://localhost/x', b'http://h:80/', b'*', '/é'.encode(), b'/%20',
-        b'a', b'/machine-config', b'/actions']
+        b'a', b'/machine-config', b'/actions',
+        # three- and four-byte characters whose second byte lies outside the ranges special-cased for E0/ED/F0/F4
+        '/\u1800'.encode(), '/\u2800x'.encode(), '/\U00050000'.encode(), '/\U000d0000/y'.encode(), '/\ud7ff\ue000'.encode(),
+        b'/del\x7f', b'/\x7f\x01~']
 LIMITS = [0, 1, 2, 3, 4, 5, 6, 7, 8, 1023, 1024, 1025, 51199, 51200, 51201, 2 ** 32 - 1]
 
 
@@ -12,6 +15,10 @@ def case_flip(rng, b):
 
 
 PADS = [b'', b'', b' ', b'  ', b'\t', b'\xc2\xa0', b'\xe2\x80\x83', b'\xe3\x80\x80']
+# characters that share bytes with White_Space characters but are not white space: never trimmed
+NEAR_WS = [s_.encode() for s_ in ('\u00e0', '\u00c5', '\u00a9', '\u200b', '\u202a', '\u2060', '\u3001', '\u1681', '\u20ac', '\u1800',
+                                  '\U00050000', '\u2027', '\u205e', '\u2100', '\u167f', '\u3040',
+                                  '\u0084', '\u0086', '\u009f', '\u00a1', '\u1000', '\u201f', '\u105f', '\u2029x', '\x7f')]
 
 
 def pad(rng, b, left=True):
@@ -87,8 +94,11 @@ def gen_request(rng, limit=51200, want_body=None, want_expect=None, long_lines=F
         elif long_lines and k < 0.85:
             hs.append(filler_header(rng, rng.choice([990, 1000, 1017, 1018, 1019, 1020, 1021, 1022])))
         else:
-            hs.append(header_line(rng, rng.choice([b'X-Custom', b'x-custom', b'Host', b'X-A', b'Content-Lengthy', b'']),
-                                  rng.choice([b'v', b'', b'a:b', b'multi word value', 'été'.encode()])))
+            val = rng.choice([b'v', b'', b'a:b', b'multi word value', 'été'.encode()])
+            if rng.random() < 0.3:
+                # wrapped in characters that share bytes with White_Space characters but are not white space (never trimmed)
+                val = rng.choice(NEAR_WS) + val + rng.choice(NEAR_WS)
+            hs.append(header_line(rng, rng.choice([b'X-Custom', b'x-custom', b'Host', b'X-A', b'Content-Lengthy', b'']), val))
     expect = want_expect if want_expect is not None else (rng.random() < 0.25)
     if expect:
         hs.insert(rng.randint(0, len(hs)), expect_line(rng))
